@@ -61,7 +61,10 @@ package backend
 //@   ensures [pending] pending == rev && (rev == 0 || rev < 0x8000000000000000)
 
 //@ func (*backend).update(ctx, oldRevision, key, value, lease) (revision, err)
-//@   props C01 C02 C04 C09
+//@   props C01 C02 C03 C04 C09
+// "any non-empty value a client writes is returned byte for byte": a version record whose value is the
+// deletion marker reads as a deletion (get, scan), so a client value must never be stored as one
+//@   ensures@C03 [a-client-value-is-never-stored-as-the-deletion-marker] commits == old(commits)+1 && err == nil ==> !bytes_eq(value, tombStoneBytes)
 //@   requires wf_backend(b) && pending == 0 && !batch_open
 //@   modifies ghost.pending ghost.max_issued ghost.bw_n ghost.bw_kind ghost.bw_key ghost.bw_val ghost.bw_old ghost.bw_ttl ghost.commits ghost.last_batch ghost.last_err ghost.batch_open ghost.floor ghost.floor_set
 //@   ensures [dealt-is-returned] pending == revision
